@@ -317,7 +317,8 @@ class Environment:
 
         for event in events_to_unpause:
             self._paused_events.remove(event)
-            event.time += self.now - event.paused_at
+            # Rounding must not move the event before the current time.
+            event.time = max(self.now, event.time + (self.now - event.paused_at))
             bisect.insort(self._events, event)
 
     def add_datapoint(self, list_label, sub_label, datapoint):
